@@ -186,24 +186,31 @@ structure Entry where
   decision : Decision
 
 mutual
-/-- `Graph.get_adapted_nodes` of a graph and, through `build_subgraph`, of the bodies of its nodes:
-    every graph uses `policy` of **its own** requirements (plus `extra` for the outermost one).
-    Function graphs are not entered here (they are emitted by `to_onnx_function`). -/
-def adaptGraph (F : Facts) (extra : List Req) : PGraph → List Entry
-  | .mk nodes => adaptNodes F (policy (reqGraph F (.mk nodes) ++ extra)) nodes
-def adaptNodes (F : Facts) (opsets : List Req) : List PNode → List Entry
+/-- A body compiled by a builder whose `model_opset_req` (the requirements of every node of every
+    graph of that build, plus the main graph's extra requirements) is `ctx`: `build_subgraph` hands it
+    `ctx` through `with_opset`, so it is adapted against `policy (own requirements ∪ ctx)`. -/
+def adaptBody (F : Facts) (ctx : List Req) : PGraph → List Entry
+  | .mk nodes => adaptNodes F ctx (policy (reqGraph F (.mk nodes) ++ ctx)) nodes
+def adaptNodes (F : Facts) (ctx opsets : List Req) : List PNode → List Entry
   | [] => []
-  | n :: ns => adaptNode F opsets n ++ adaptNodes F opsets ns
-def adaptNode (F : Facts) (opsets : List Req) : PNode → List Entry
+  | n :: ns => adaptNode F ctx opsets n ++ adaptNodes F ctx opsets ns
+def adaptNode (F : Facts) (ctx opsets : List Req) : PNode → List Entry
   | .mk k np c subs i =>
       ⟨opsets, .mk k np c subs i, adaptBestEffort F opsets (.mk k np c subs i)⟩ ::
         (match k with
          | .func _ _ => []
-         | _ => adaptBodies F subs)
-def adaptBodies (F : Facts) : List PGraph → List Entry
+         | _ => adaptBodies F ctx subs)
+def adaptBodies (F : Facts) (ctx : List Req) : List PGraph → List Entry
   | [] => []
-  | g :: gs => adaptGraph F [] g ++ adaptBodies F gs
+  | g :: gs => adaptBody F ctx g ++ adaptBodies F ctx gs
 end
+
+/-- `Graph.get_adapted_nodes` of the graph a builder is started on (`_extra_opset_req = extra`) and,
+    through `build_subgraph`, of all bodies below it. Function graphs are not entered here: they are
+    built again by `to_onnx_function` with the model's opsets as their extra requirements. -/
+def adaptGraph (F : Facts) (extra : List Req) : PGraph → List Entry
+  | .mk nodes =>
+      adaptNodes F (reqGraph F (.mk nodes) ++ extra) (policy (reqGraph F (.mk nodes) ++ extra)) nodes
 
 /-! ## functions -/
 
